@@ -1273,6 +1273,10 @@ impl<'a> CompilerState<'a> {
                     let mut size = None;
                     let mut def = VariableDefinition::None;
                     let mut var_type = var_type_ex;
+                    // The memory class deduced from an initial value (a pointer constant above
+                    // 0xff) concerns this declarator only, not the ones that follow
+                    #[allow(unused_mut)]
+                    let mut memory = memory;
                     let mut start = 0;
                     let mut var_const = var_const_ex;
                     let mut set_const = set_const_ex;
